@@ -11,6 +11,10 @@ type DefaultFileTracker struct {
 	// Map of file path -> true for files that have been obsoleted by compaction
 	obsoleteFiles map[string]bool
 
+	// Obsolete files in the order in which they were marked; they are deleted
+	// in this order (see CompactionTask.InputFilesOldestFirst)
+	obsoleteOrder []string
+
 	// Map of file path -> true for files that are currently being compacted
 	pendingFiles map[string]bool
 
@@ -31,6 +35,9 @@ func (f *DefaultFileTracker) MarkFileObsolete(path string) {
 	f.filesMu.Lock()
 	defer f.filesMu.Unlock()
 
+	if !f.obsoleteFiles[path] {
+		f.obsoleteOrder = append(f.obsoleteOrder, path)
+	}
 	f.obsoleteFiles[path] = true
 }
 
@@ -71,25 +78,30 @@ func (f *DefaultFileTracker) CleanupObsoleteFiles() error {
 	f.filesMu.Lock()
 	defer f.filesMu.Unlock()
 
-	// Safely remove obsolete files that aren't pending
-	for path := range f.obsoleteFiles {
+	// Safely remove obsolete files that aren't pending, in the order in which
+	// they were marked
+	var remaining []string
+	var firstErr error
+	for i, path := range f.obsoleteOrder {
 		// Skip files that are still being used in a compaction
 		if f.pendingFiles[path] {
+			remaining = append(remaining, path)
 			continue
 		}
 
 		// Try to delete the file
-		if err := os.Remove(path); err != nil {
-			if !os.IsNotExist(err) {
-				return fmt.Errorf("failed to delete obsolete file %s: %w", path, err)
-			}
-			// If the file doesn't exist, remove it from our tracking
-			delete(f.obsoleteFiles, path)
-		} else {
-			// Successfully deleted, remove from tracking
-			delete(f.obsoleteFiles, path)
+		if err := os.Remove(path); err != nil && !os.IsNotExist(err) {
+			// Keep this file and everything marked after it for the next
+			// attempt: deleting later files first would break the order
+			firstErr = fmt.Errorf("failed to delete obsolete file %s: %w", path, err)
+			remaining = append(remaining, f.obsoleteOrder[i:]...)
+			break
 		}
-	}
 
-	return nil
+		// Deleted (or already gone), remove from tracking
+		delete(f.obsoleteFiles, path)
+	}
+	f.obsoleteOrder = remaining
+
+	return firstErr
 }
